@@ -9,6 +9,7 @@ import (
 	cl "verif/gen/n0/client"
 	"verif/hapi"
 	"verif/vrt"
+	"verif/vrt/vnet"
 )
 
 // Histories of the packaged primitives against their textbook models.
@@ -330,9 +331,12 @@ type c19PrimArg struct {
 	Via   int     `json:"v"` // 0: clients talk to the leader; 1: to the follower of a two-node cluster
 	Conns int     `json:"c"` // 1: all objects on one connection; 2: A (and C) on one, B on another
 	Seqs  [][]int `json:"s"`
+	Rec   bool    `json:"r,omitempty"` // alphabet extended by R: connection A is cut, the client reconnects 3 s later
 }
 
-func c19PrimSeqs(n, depth, maxT int, tIdx int) [][]int {
+func c19PrimSeqs(n, depth, maxT int, tIdx int) [][]int { return c19PrimSeqsR(n, depth, maxT, tIdx, -1) }
+
+func c19PrimSeqsR(n, depth, maxT int, tIdx int, rIdx int) [][]int {
 	var out [][]int
 	var rec func(cur []int, ts int)
 	rec = func(cur []int, ts int) {
@@ -342,10 +346,17 @@ func c19PrimSeqs(n, depth, maxT int, tIdx int) [][]int {
 		}
 		for i := 0; i < n; i++ {
 			if i == tIdx {
-				if ts >= maxT || len(cur) == 0 || len(cur) == depth-1 {
+				if ts%10 >= maxT || len(cur) == 0 || len(cur) == depth-1 {
 					continue // a tick first or last observes nothing
 				}
 				rec(append(cur, i), ts+1)
+				continue
+			}
+			if i == rIdx {
+				if ts >= 10 || len(cur) == 0 || len(cur) == depth-1 {
+					continue // one reconnect, with something before and after it
+				}
+				rec(append(cur, i), ts+10)
 				continue
 			}
 			rec(append(cur, i), ts)
@@ -358,13 +369,16 @@ func c19PrimSeqs(n, depth, maxT int, tIdx int) [][]int {
 func c19PrimCases(quick bool) []EnumCase {
 	var out []EnumCase
 	for _, k := range primKinds() {
-		for _, cfg := range [][2]int{{0, 2}, {0, 1}, {1, 2}} {
+		for _, cfg := range [][2]int{{0, 2}, {0, 1}, {1, 2}, {2, 2}} {
 			via, conns := cfg[0], cfg[1]
 			depth := 5
 			if len(k.ops) > 5 {
 				depth = 4
 			}
 			if via == 1 || conns == 1 {
+				depth--
+			}
+			if via == 2 && len(k.ops) > 5 && quick {
 				depth--
 			}
 			if !quick {
@@ -374,13 +388,28 @@ func c19PrimCases(quick bool) []EnumCase {
 				}
 			}
 			sq := c19PrimSeqs(len(k.ops), depth, 1+btoi(!quick), len(k.ops)-1)
+			rec := false
+			if via == 2 {
+				via, rec = 0, true
+				sq = c19PrimSeqsR(len(k.ops)+1, depth, 1, len(k.ops)-1, len(k.ops))
+				var only [][]int
+				for _, q := range sq {
+					for _, i := range q {
+						if i == len(k.ops) {
+							only = append(only, q)
+							break
+						}
+					}
+				}
+				sq = only
+			}
 			chunk := 60
 			for f := 0; f < len(sq); f += chunk {
 				t := f + chunk
 				if t > len(sq) {
 					t = len(sq)
 				}
-				out = append(out, mkCase(fmt.Sprintf("%s/via%d-conns%d/%d-%d", k.name, via, conns, f, t-1), c19PrimArg{k.name, via, conns, sq[f:t]}))
+				out = append(out, mkCase(fmt.Sprintf("%s/via%d-conns%d-reconnect%v/%d-%d", k.name, via, conns, rec, f, t-1), c19PrimArg{Kind: k.name, Via: via, Conns: conns, Seqs: sq[f:t], Rec: rec}))
 			}
 		}
 	}
@@ -403,6 +432,10 @@ func evalC19Prim(c *Ctx, cs EnumCase) EnumResult {
 		res.Sub++
 		var names []string
 		for _, i := range sq {
+			if i == len(k.ops) {
+				names = append(names, "R")
+				continue
+			}
 			names = append(names, k.ops[i])
 		}
 		hist := strings.Join(names, " ")
@@ -426,6 +459,7 @@ func evalC19Prim(c *Ctx, cs EnumCase) EnumResult {
 				port = 5659
 			}
 			var cs []*cl.Client
+			linksBefore := len(vnet.Links())
 			for i := 0; i < a.Conns; i++ {
 				cc := cl.NewClient("127.0.0.1", port)
 				if err := cc.Open(); err != nil {
@@ -445,6 +479,19 @@ func evalC19Prim(c *Ctx, cs EnumCase) EnumResult {
 				if op == "T" {
 					vrt.AdvanceTo(vrt.Elapsed() + c19Tick)
 					obs = append(obs, "T")
+					continue
+				}
+				if op == "R" {
+					// the connection of A breaks; the client library reconnects under its client id 3 s later
+					nl := len(vnet.Links())
+					vnet.Links()[linksBefore].Break()
+					vrt.AdvanceTo(vrt.Elapsed() + 3500*ms)
+					vrt.Quiesce()
+					if len(vnet.Links()) != nl+1 {
+						engErr = fmt.Sprintf("the client did not reconnect within 3.5 s (%d links before, %d after)", nl, len(vnet.Links()))
+						return
+					}
+					obs = append(obs, "R")
 					continue
 				}
 				want := model.apply(op)
